@@ -305,6 +305,8 @@ def run_query(pid, q, tier, keep=False, verbose=False):
            "status": None, "seconds": 0.0, "solver": None, "obligations": 0, "discharged": 0,
            "fails": [], "witness": None, "note": q.note, "expect_fail": q.expect_fail}
     tmo = q.timeout or (150 if tier == "quick" else 1800)
+    if os.environ.get("VERIF_TIMEOUT"):
+        tmo = int(os.environ["VERIF_TIMEOUT"])
     t0 = time.time()
     try:
         gb, err = build(q, wd, False)
